@@ -71,6 +71,11 @@ theorem mem_sortedDistinct [DecidableEq α] {le : α → α → Bool} {a : α} {
 theorem nodup_sortedDistinct [DecidableEq α] (le : α → α → Bool) (l : List α) :
     (sortedDistinct le l).Nodup := nodup_dedup _
 
+/-- on an already sorted list `sortedDistinct` only removes duplicates (used by the concrete examples) -/
+theorem sortedDistinct_of_sorted [DecidableEq α] {le : α → α → Bool} {l : List α}
+    (h : l.Pairwise (fun a b => le a b = true)) : sortedDistinct le l = dedup l := by
+  unfold sortedDistinct; rw [mergeSort_of_pairwise h]
+
 /-- strictly increasing: the statement "in sorted identifier order" -/
 theorem sortedDistinct_strict [DecidableEq α] {le : α → α → Bool} (ho : IsTotalOrderB le)
     (l : List α) : (sortedDistinct le l).Pairwise (fun a b => le a b = true ∧ a ≠ b) := by
